@@ -55,6 +55,27 @@ func c12FailingThunk(msg string) graphql.FieldResolveFn {
 	}
 }
 
+// a resolver whose response is its argument map and that afterwards treats
+// p.Args as its own: overwrites, deletes and adds top-level entries
+func c12ArgEcho(p graphql.ResolveParams) (interface{}, error) {
+	b, _ := json.Marshal(p.Args)
+	for k := range p.Args {
+		if k == "b" {
+			delete(p.Args, k)
+		} else {
+			p.Args[k] = "overwritten by an earlier call"
+		}
+	}
+	p.Args["added"] = "by an earlier call"
+	return string(b), nil
+}
+
+func c12ArgEchoField() *graphql.Field {
+	return &graphql.Field{Type: graphql.String, Resolve: c12ArgEcho, Args: graphql.FieldConfigArgument{
+		"a": &graphql.ArgumentConfig{Type: graphql.Int}, "b": &graphql.ArgumentConfig{Type: graphql.String},
+		"c": &graphql.ArgumentConfig{Type: graphql.NewList(graphql.Int)}, "d": &graphql.ArgumentConfig{Type: graphql.Boolean, DefaultValue: true}}}
+}
+
 func c12Schema() graphql.Schema {
 	str := func(v string) graphql.FieldResolveFn {
 		return func(p graphql.ResolveParams) (interface{}, error) { return v, nil }
@@ -74,6 +95,7 @@ func c12Schema() graphql.Schema {
 			"alias": &graphql.Field{Type: graphql.String}, "age": &graphql.Field{Type: graphql.Int},
 			"broken":  &graphql.Field{Type: graphql.String, Resolve: fail("broken")},
 			"lazyBad": &graphql.Field{Type: graphql.String, Resolve: c12FailingThunk("lazy broken")},
+			"argEcho": c12ArgEchoField(),
 		}
 		for k, v := range extra {
 			f[k] = v
@@ -119,7 +141,8 @@ func c12Schema() graphql.Schema {
 		map[string]interface{}{"kind": "Cat", "name": "Tom", "nick": "T", "meows": true},
 	}
 	qf := graphql.Fields{
-		"aab": &graphql.Field{Type: graphql.String, Resolve: str("aab")}, "aac": &graphql.Field{Type: graphql.String, Resolve: str("aac")},
+		"argEcho": c12ArgEchoField(),
+		"aab":     &graphql.Field{Type: graphql.String, Resolve: str("aab")}, "aac": &graphql.Field{Type: graphql.String, Resolve: str("aac")},
 		"aad": &graphql.Field{Type: graphql.String, Resolve: str("aad")}, "aae": &graphql.Field{Type: graphql.String, Resolve: str("aae")},
 		"aba": &graphql.Field{Type: graphql.String, Resolve: str("aba")}, "aca": &graphql.Field{Type: graphql.String, Resolve: str("aca")},
 		"echo": &graphql.Field{Type: graphql.String, Args: graphql.FieldConfigArgument{
@@ -136,8 +159,12 @@ func c12Schema() graphql.Schema {
 		"req2": &graphql.Field{Type: graphql.String, Args: graphql.FieldConfigArgument{
 			"x": &graphql.ArgumentConfig{Type: graphql.NewNonNull(graphql.Int)}, "y": &graphql.ArgumentConfig{Type: graphql.NewNonNull(graphql.Int)},
 			"z": &graphql.ArgumentConfig{Type: graphql.NewNonNull(graphql.Int)}}, Resolve: str("req2")},
-		"pets":     &graphql.Field{Type: graphql.NewList(pet), Resolve: func(p graphql.ResolveParams) (interface{}, error) { return animals, nil }},
-		"named":    &graphql.Field{Type: graphql.NewList(named), Resolve: func(p graphql.ResolveParams) (interface{}, error) { return animals, nil }},
+		"pets":  &graphql.Field{Type: graphql.NewList(pet), Resolve: func(p graphql.ResolveParams) (interface{}, error) { return animals, nil }},
+		"named": &graphql.Field{Type: graphql.NewList(named), Resolve: func(p graphql.ResolveParams) (interface{}, error) { return animals, nil }},
+		"dogs": &graphql.Field{Type: graphql.NewList(dog), Resolve: func(p graphql.ResolveParams) (interface{}, error) {
+			return []interface{}{map[string]interface{}{"kind": "Dog", "name": "Rex"}, map[string]interface{}{"kind": "Dog", "name": "Fido"},
+				map[string]interface{}{"kind": "Dog", "name": "Bo"}}, nil
+		}},
 		"catOrDog": &graphql.Field{Type: graphql.NewList(catOrDog), Resolve: func(p graphql.ResolveParams) (interface{}, error) { return animals, nil }},
 		"human": &graphql.Field{Type: human, Resolve: func(p graphql.ResolveParams) (interface{}, error) {
 			return map[string]interface{}{"kind": "Human", "name": "Ann", "pets": animals}, nil
@@ -151,7 +178,12 @@ func c12Schema() graphql.Schema {
 		qf[fmt.Sprintf("t%d", i)] = &graphql.Field{Type: graphql.String, Resolve: c12FailingThunk(fmt.Sprintf("t%d failed", i))}
 	}
 	q := graphql.NewObject(graphql.ObjectConfig{Name: "Query", Fields: qf})
+	// the mutation type offers every query field too, so that each request class exists in both forms
 	mf := graphql.Fields{}
+	for k, f := range qf {
+		cp := *f
+		mf[k] = &cp
+	}
 	for i := 1; i <= 4; i++ {
 		mf[fmt.Sprintf("m%d", i)] = &graphql.Field{Type: graphql.String, Resolve: c12FailingThunk(fmt.Sprintf("m%d failed", i))}
 		mf[fmt.Sprintf("ok%d", i)] = &graphql.Field{Type: graphql.String, Resolve: str("ok")}
@@ -197,6 +229,13 @@ func c12Corpus() []c12Req {
 		q("valid", `{ aab aac aad pets { name ... on Dog { barks } ... on Cat { meows } } human { name pets { name } } }`),
 		q("valid", `query Q($n: Int = 3) { echo(n: $n, color: RED, in: {a: 1, e: true, d: {p: 1, q: 2}}) args3(arga: 1) }`),
 		q("valid", `{ named { name nick } catOrDog { ... on Named { name } } robot { model } }`),
+		// resolvers that read their all-literal arguments and then modify p.Args: at the root, twice in one
+		// selection, under lists with several items, in a mutation-free query repeated on a cached plan
+		q("args-mutated", `{ argEcho(a: 1, b: "x", c: [1, 2]) }`), q("args-mutated", `{ argEcho }`),
+		q("args-mutated", `{ x: argEcho(a: 1, b: "x") y: argEcho(a: 1, b: "x") }`),
+		q("args-mutated", `{ dogs { name argEcho(a: 7, b: "p", c: [3]) } }`),
+		q("args-mutated", `{ dogs { argEcho } human { argEcho(a: 2) pets { ... on Dog { argEcho(a: 3, d: false) } ... on Cat { argEcho(a: 5) } } } }`),
+		{Kind: "args-mutated", Query: `query($v: Int) { argEcho(a: $v, b: "lit") dogs { argEcho(a: $v, b: "lit") } }`, Vars: map[string]interface{}{"v": 9}},
 		// did-you-mean lists with equally distant candidates
 		q("suggest-field", `{ aaa }`), q("suggest-field", `{ aa }`), q("suggest-field", `{ aab aaz abb }`), q("suggest-field", `{ a }`),
 		q("suggest-field", `{ human { nam nic ag } }`), q("suggest-field", `{ e7 t9 }`),
@@ -224,6 +263,10 @@ func c12Corpus() []c12Req {
 		q("exec-errors", `{ pets { name broken lazyBad } human { broken lazyBad pets { lazyBad broken } } named { lazyBad } }`),
 		q("exec-errors", `{ z: t1 y: t2 x: t3 w: t4 v: e1 u: e2 }`),
 		q("exec-errors", `mutation { m1 m2 ok1 m3 m4 }`), q("exec-errors", `mutation { d: m1 c: m2 b: m3 a: m4 }`),
+		// objects holding several failing deferred values (2, 3, 6 of them), below root fields and below lists
+		q("exec-errors", `{ human { a: lazyBad b: lazyBad } }`), q("exec-errors", `{ robot { c: lazyBad b: lazyBad a: lazyBad } }`),
+		q("exec-errors", `{ human { f: lazyBad e: lazyBad d: lazyBad c: lazyBad b: lazyBad a: lazyBad pets { y: lazyBad x: lazyBad } } second: human { b: lazyBad a: broken c: lazyBad } }`),
+		q("exec-errors", `{ dogs { q: lazyBad p: lazyBad } t2 robot { k: lazyBad j: lazyBad } t1 }`),
 		// introspection
 		q("introspection", `{ __schema { types { name fields { name args { name } } } } }`),
 		q("introspection", `{ __schema { types { name kind inputFields { name defaultValue } enumValues { name } interfaces { name } possibleTypes { name } } } }`),
@@ -252,6 +295,14 @@ func c12Corpus() []c12Req {
 		q("subscription", `subscription { s2 }`), q("subscription", `subscription { s1 s2 s3 }`), q("subscription", `subscription { z: s3 a: s1 m: s2 }`),
 		{Kind: "operation", Query: `query A { aab } query B { aac }`, Op: "C"}, {Kind: "operation", Query: `query A { aab } query B { aac }`},
 		{Kind: "operation", Query: `query A { aab } query B { aac }`, Op: "B"},
+	}
+	// every executable request class in mutation form as well (serial execution, depth-first forcing)
+	both := map[string]bool{"valid": true, "exec-errors": true, "args-mutated": true, "bad-literal": true, "suggest-field": true, "suggest-arg": true}
+	n := len(rs)
+	for i := 0; i < n; i++ {
+		if both[rs[i].Kind] && strings.HasPrefix(rs[i].Query, "{") {
+			rs = append(rs, c12Req{Kind: rs[i].Kind + "-mutation", Query: "mutation " + rs[i].Query, Vars: rs[i].Vars})
+		}
 	}
 	return rs
 }
@@ -316,6 +367,10 @@ func c12Generated(seed uint64, n int) []c12Req {
 			sb.WriteString("})")
 		}
 		sb.WriteString(" }")
+		if r.Chance(35) {
+			rs = append(rs, c12Req{Kind: kind + "-mutation", Query: "mutation " + sb.String()})
+			continue
+		}
 		rs = append(rs, c12Req{Kind: kind, Query: sb.String()})
 	}
 	return rs
@@ -447,6 +502,12 @@ func c12RunAll(reqs []c12Req, reps int) []c12Seen {
 				continue
 			}
 			c12Add(&seen[i].Do, c12Do(&s, reqs[i]))
+			if strings.HasPrefix(reqs[i].Kind, "exec-errors") {
+				// error order decided by a two-entry map shows in about one run of eight: repeat more
+				for x := 0; x < 5; x++ {
+					c12Add(&seen[i].Do, c12Do(&s, reqs[i]))
+				}
+			}
 			if rep%2 == 0 {
 				c12Add(&seen[i].Cache, c12ViaCache(&s, cache, reqs[i]))
 			}
@@ -541,11 +602,106 @@ var c12KnownSites = map[string]string{
 	"values.go:valueFromAST:ttype.Fields()":                   "builds a map keyed by field name",
 }
 
+// types whose values outlive a request on one schema value / one plan cache
+var c12PersistentTypes = map[string]bool{"Schema": true, "Object": true, "Interface": true, "Union": true, "Enum": true, "InputObject": true,
+	"Scalar": true, "List": true, "NonNull": true, "Directive": true, "FieldDefinition": true, "InputObjectField": true,
+	"EnumValueDefinition": true, "Argument": true, "Plan": true, "fieldPlan": true, "selectionPlan": true, "planArgs": true,
+	"PlanCache": true, "planCacheEntry": true}
+
+const (
+	c12Lazy     = "lazily built table of the type system: initialised once from the type's configuration (History.v slot, init = function of the schema)"
+	c12PlanSlot = "cached plan or a part of a plan built on demand: determined by schema, request text, operation name (History.v slot)"
+	c12Edit     = "schema-editing API called by the application, not by a request: starts a new history"
+)
+
+// fields of persistent types written outside their constructors, as the C12
+// history model (Ext/History.v) accounts for them
+var c12KnownWrites = map[string]string{
+	"Enum.nameLookup <- *Enum.getNameLookup": c12Lazy, "Enum.valuesLookup <- *Enum.getValueLookup": c12Lazy,
+	"EnumValueDefinition.Value <- *Enum.defineEnumValues": c12Lazy, "FieldDefinition.Args <- defineFieldMap": c12Lazy,
+	"InputObject.err <- *InputObject.defineFieldMap": c12Lazy, "InputObject.fields <- *InputObject.Fields": c12Lazy,
+	"InputObject.init <- *InputObject.defineFieldMap": c12Lazy, "InputObjectField.DefaultValue <- *InputObject.defineFieldMap": c12Lazy,
+	"InputObjectField.PrivateDescription <- *InputObject.defineFieldMap": c12Lazy, "InputObjectField.PrivateName <- *InputObject.defineFieldMap": c12Lazy,
+	"InputObjectField.Type <- *InputObject.defineFieldMap": c12Lazy,
+	"Interface.err <- *Interface.Fields":                   c12Lazy, "Interface.fields <- *Interface.Fields": c12Lazy, "Interface.initialisedFields <- *Interface.Fields": c12Lazy,
+	"Object.err <- *Object.Fields": c12Lazy, "Object.err <- *Object.Interfaces": c12Lazy, "Object.fields <- *Object.Fields": c12Lazy,
+	"Object.initialisedFields <- *Object.Fields": c12Lazy, "Object.initialisedInterfaces <- *Object.Interfaces": c12Lazy,
+	"Object.interfaces <- *Object.Interfaces": c12Lazy,
+	"Union.err <- *Union.Types":               c12Lazy, "Union.initalizedTypes <- *Union.Types": c12Lazy, "Union.types <- *Union.Types": c12Lazy,
+	"Schema.possibleTypeMap <- *Schema.buildPossibleTypeMap": c12Lazy,
+	"Plan.root <- PlanQuery":                                 c12PlanSlot, "Plan.subPlans <- *Plan.planSelectionSetsLocked": c12PlanSlot,
+	"PlanCache.entries <- *PlanCache.store": c12PlanSlot, "PlanCache.entries <- *PlanCache.Reset": c12PlanSlot, "PlanCache.order <- *PlanCache.Reset": c12PlanSlot,
+	"fieldPlan.abstractAlternatives <- *Plan.abstractAlternative": c12PlanSlot, "fieldPlan.args <- *Plan.collectInto": c12PlanSlot,
+	"fieldPlan.fieldASTs <- *Plan.collectInto": c12PlanSlot, "fieldPlan.returnType <- *Plan.collectInto": c12PlanSlot,
+	"fieldPlan.sub <- *Plan.planMergedFieldChildren": c12PlanSlot, "selectionPlan.dynamic <- *Plan.planSelectionSetsLocked": c12PlanSlot,
+	"selectionPlan.fields <- *Plan.collectInto": c12PlanSlot, "selectionPlan.fields <- *Plan.planSelectionSetsLocked": c12PlanSlot,
+	"Schema.extensions <- *Schema.AddExtensions": c12Edit, "Schema.implementations <- *Schema.AddImplementation": c12Edit,
+	"Schema.possibleTypeMap <- *Schema.AddImplementation": c12Edit, "Schema.typeMap <- *Schema.AppendType": c12Edit,
+	"Object.initialisedFields <- *Object.AddFieldConfig": c12Edit, "Interface.initialisedFields <- *Interface.AddFieldConfig": c12Edit,
+	"InputObject.fields <- *InputObject.AddFieldConfig": c12Edit, "InputObject.err <- *InputObject.AddFieldConfig": c12Edit,
+}
+
+// is the write outside the constructor of its type?
+func c12AfterConstruction(key string) (string, bool) {
+	parts := strings.SplitN(key, " <- ", 2)
+	if len(parts) != 2 {
+		return "", false
+	}
+	typ := parts[0][:strings.Index(parts[0], ".")]
+	if !c12PersistentTypes[typ] {
+		return "", false
+	}
+	fn := parts[1]
+	if strings.HasPrefix(fn, "New") {
+		return "", false
+	}
+	return typ, true
+}
+
 type c12Importer struct {
-	root  string
-	fset  *token.FileSet
-	pkgs  map[string]*types.Package
-	sites map[string]int
+	root   string
+	fset   *token.FileSet
+	pkgs   map[string]*types.Package
+	sites  map[string]int
+	writes map[string]int // "Type.field <- func": assignments to fields of the library's own struct types
+}
+
+// the struct type (of the library's root package) whose field the expression selects, if it does
+func c12FieldOf(info *types.Info, e ast.Expr) (string, bool) {
+	for {
+		switch x := e.(type) {
+		case *ast.IndexExpr: // t.f[k] = v writes into the table held by t.f
+			e = x.X
+			continue
+		case *ast.ParenExpr:
+			e = x.X
+			continue
+		case *ast.StarExpr:
+			e = x.X
+			continue
+		}
+		break
+	}
+	sel, ok := e.(*ast.SelectorExpr)
+	if !ok {
+		return "", false
+	}
+	s, ok := info.Selections[sel]
+	if !ok || s.Kind() != types.FieldVal {
+		return "", false
+	}
+	t := s.Recv()
+	if p, ok := t.(*types.Pointer); ok {
+		t = p.Elem()
+	}
+	named, ok := t.(*types.Named)
+	if !ok || named.Obj().Pkg() == nil || named.Obj().Pkg().Path() != c12LibPath {
+		return "", false
+	}
+	if _, isStruct := named.Underlying().(*types.Struct); !isStruct {
+		return "", false
+	}
+	return named.Obj().Name() + "." + sel.Sel.Name, true
 }
 
 func (li *c12Importer) Import(path string) (*types.Package, error) {
@@ -575,7 +731,7 @@ func (li *c12Importer) Import(path string) (*types.Package, error) {
 		for _, n := range names {
 			files = append(files, pkg.Files[n])
 		}
-		info := &types.Info{Types: map[ast.Expr]types.TypeAndValue{}}
+		info := &types.Info{Types: map[ast.Expr]types.TypeAndValue{}, Selections: map[*ast.SelectorExpr]*types.Selection{}}
 		conf := types.Config{Importer: li, Error: func(error) {}}
 		tp, _ := conf.Check(path, li.fset, files, info)
 		li.pkgs[path] = tp
@@ -587,6 +743,16 @@ func (li *c12Importer) Import(path string) (*types.Package, error) {
 					fn = x.Name.Name
 					if x.Recv != nil && len(x.Recv.List) > 0 {
 						fn = types.ExprString(x.Recv.List[0].Type) + "." + fn
+					}
+				case *ast.AssignStmt:
+					for _, lhs := range x.Lhs {
+						if tf, ok := c12FieldOf(info, lhs); ok {
+							li.writes[tf+" <- "+fn]++
+						}
+					}
+				case *ast.IncDecStmt:
+					if tf, ok := c12FieldOf(info, x.X); ok {
+						li.writes[tf+" <- "+fn]++
 					}
 				case *ast.RangeStmt:
 					if tv, ok := info.Types[x.X]; ok && tv.Type != nil {
@@ -605,17 +771,17 @@ func (li *c12Importer) Import(path string) (*types.Package, error) {
 }
 
 // every `range` over a map-typed expression in the non-test files of the library
-func c12ScanSites() (map[string]int, string) {
+func c12ScanSites() (map[string]int, map[string]int, string) {
 	f := runtime.FuncForPC(reflect.ValueOf(graphql.Do).Pointer())
 	if f == nil {
-		return nil, "cannot locate the library source"
+		return nil, nil, "cannot locate the library source"
 	}
 	file, _ := f.FileLine(f.Entry())
 	root := filepath.Dir(file)
 	if _, err := os.Stat(filepath.Join(root, "graphql.go")); err != nil {
-		return nil, "cannot locate the library source: " + err.Error()
+		return nil, nil, "cannot locate the library source: " + err.Error()
 	}
-	li := &c12Importer{root: root, fset: token.NewFileSet(), pkgs: map[string]*types.Package{}, sites: map[string]int{}}
+	li := &c12Importer{root: root, fset: token.NewFileSet(), pkgs: map[string]*types.Package{}, sites: map[string]int{}, writes: map[string]int{}}
 	filepath.Walk(root, func(p string, info os.FileInfo, err error) error {
 		if err != nil || !info.IsDir() {
 			return nil
@@ -632,7 +798,7 @@ func c12ScanSites() (map[string]int, string) {
 		li.Import(path)
 		return nil
 	})
-	return li.sites, ""
+	return li.sites, li.writes, ""
 }
 
 // ---- observed iteration orders of real maps (Coq side: premise of the model) ----
@@ -714,7 +880,15 @@ func genC12(tier string, seed uint64, n int, e *Emitter) {
 		reps, procs, childReps = 40, 8, 5
 	}
 	// (0) map-range sites of the library against the committed classification
-	sites, scanErr := c12ScanSites()
+	sites, writes, scanErr := c12ScanSites()
+	if os.Getenv("GQLVERIF_C12_DUMP") != "" {
+		var ws []string
+		for k, v := range writes {
+			ws = append(ws, fmt.Sprintf("%s x%d", k, v))
+		}
+		sort.Strings(ws)
+		fmt.Fprintln(os.Stderr, strings.Join(ws, "\n"))
+	}
 	unknown := 0
 	var keys []string
 	for k := range sites {
@@ -729,6 +903,22 @@ func genC12(tier string, seed uint64, n int, e *Emitter) {
 			unknown++
 		}
 		e.Emit(Case{Group: "map-range-site", Desc: map[string]interface{}{"site": k, "occurrences": sites[k], "classification": why}, Tags: []string{tag}})
+	}
+	var wkeys []string
+	for k := range writes {
+		if _, ok := c12AfterConstruction(k); ok {
+			wkeys = append(wkeys, k)
+		}
+	}
+	sort.Strings(wkeys)
+	for _, k := range wkeys {
+		why, ok := c12KnownWrites[k]
+		tag := "slot:classified"
+		if !ok {
+			tag, why = "slot:unknown", "a field of a persistent type written after construction that the C12 history model does not list: repetition budget raised"
+			unknown++
+		}
+		e.Emit(Case{Group: "persisted-slot", Desc: map[string]interface{}{"write": k, "occurrences": writes[k], "classification": why}, Tags: []string{tag}})
 	}
 	if scanErr != "" {
 		e.Emit(Case{Group: "map-range-site", Desc: map[string]interface{}{"scan": scanErr}, Tags: []string{"site:scan-unavailable"}})
